@@ -163,6 +163,30 @@ def structured_soup(rng, toks, n):
     return b(" ".join(parts))
 
 
+LEX_ERRORS = ["\\", "`", "\x00", "\x7f", '"abc', "'x", "/* c", "1e", "1.", "0x", "\u00e9", '"\\q"']
+LEX_ERROR_CONTEXTS = [
+    "%s", "fn main() { %s }", "fn main() { let a = %s; }", "fn main() { if true { %s } }", "fn main() { f(%s) }",
+    "fn main() { let a: %s = 1; }", "fn f(a: %s) {}", "type X = %s;", "import { %s } from m;", "fn main() { [%s] }",
+    "fn main() { match 1 { %s } }", "impl %s", "#[%s] fn f() {}", "fn main() { new { a: %s } }",
+    "fn main() { for i in %s {} }", "fn main() { try { %s } catch e { } }",
+]
+
+
+def lex_error_after_token(toks):
+    """Every token kind (and the soup extras) followed, with and without a blank, by every kind of text the lexer
+    rejects, in every position class of the grammar. The lexer does not advance over what it rejects, so a parser
+    routine that swallows the error and returns without having consumed a token is asked again for ever (seed S-C05d:
+    `$` + illegal character in expression position)."""
+    out = []
+    heads = sorted(set(toks.values())) + [e for e in SOUP_EXTRA if e.strip()] + [""]
+    for ctx in LEX_ERROR_CONTEXTS:
+        for t in heads:
+            for e in LEX_ERRORS:
+                sep = " " if t[-1:].isalnum() and e[:1].isalnum() else ""
+                out.append(b(ctx % (t + sep + e)))
+    return out
+
+
 def arbitrary_bytes(rng, n):
     mode = rng.random()
     if mode < 0.3:
@@ -692,6 +716,9 @@ def build_streams(ctx, toks, corp, want_items=False):
             c["stream"] = "structured-soup-import"
             sp.append(c)
     yield "soup", sp
+
+    # a lexer error directly after every token kind in every position class
+    yield "lex-error", [{"main": t, "mods": {}, "stream": "lex-error-after-token"} for t in lex_error_after_token(toks)]
 
     # grammar-directed programs (syntactically valid, semantically arbitrary)
     yield "wild", wild_cases(rng, 8000 if quick else 120000)
